@@ -13,7 +13,7 @@ from typing import Optional
 from .. import alg
 from ..cfg import cfg_of
 from ..model import FunctionInfo
-from ..pat import Snips
+from ..pat import Snips, Virtual
 from ..report import Ctx
 from ..util import norm, fn_body_nodes, lexical_guards, ancestors, name_free
 from .common import names_in
@@ -41,13 +41,53 @@ def _direct(block: ast.AST, node: ast.AST) -> bool:
     return any(st is node or (isinstance(st, ast.Expr) and st.value is node) for st in block.body)
 
 
+def _resolved(S: Snips, node: Optional[ast.AST]) -> Optional[ast.AST]:
+    """the expression a single-assignment local stands for (the node itself when it is not such a name)."""
+    seen = set()
+    while isinstance(node, ast.Name) and isinstance(node.ctx, ast.Load) and node.id in S.defs and node.id not in seen:
+        seen.add(node.id)
+        node = S.defs[node.id]
+    return node
+
+
+def _values(S: Snips, node: ast.AST):
+    """(where, value) pairs an expression can stand for: a local name stands for the value of each of its plain assignments in the
+    function; anything else is its own value, written in place."""
+    if isinstance(node, ast.Name) and node.id not in S.literals:
+        return [(st, st.value) for st in S.stmts if isinstance(st, ast.Assign) and len(st.targets) == 1
+                and isinstance(st.targets[0], ast.Name) and st.targets[0].id == node.id]
+    return [(node, node)]
+
+
+def _mentions(S: Snips, node: ast.AST, name: str) -> bool:
+    """`name` occurs in node, looking through single-assignment locals."""
+    todo, seen = [node], set()
+    while todo:
+        for x in ast.walk(todo.pop()):
+            if isinstance(x, ast.Name):
+                if x.id == name:
+                    return True
+                if x.id in S.defs and x.id not in seen:
+                    seen.add(x.id)
+                    todo.append(S.defs[x.id])
+    return False
+
+
 def _ordered(S: Snips, op, lpat: str, rpat: str, node: Optional[ast.AST], env) -> Optional[dict]:
     """node is `L <op> R` with L, R matching the two patterns in this order (no commutation)."""
+    node = _resolved(S, node)
     if isinstance(node, ast.BinOp) and isinstance(node.op, op):
         e = S.m(lpat, node.left, env)
         if e is not None:
             return S.m(rpat, node.right, e)
     return None
+
+
+def _clamped(S: Snips, v: ast.AST, moved: str, top: str, env) -> bool:
+    """v is max(min(<moved>, <top>), 0), the arguments of max and of min in either order; an argument may be named by a
+    temporary (the match is definition-transparent)."""
+    return any(S.m(outer.format(inner.format(moved, top)), v, env) is not None
+               for outer in ("max({}, 0)", "max(0, {})") for inner in ("min({}, {})", "min({1}, {0})"))
 
 
 def _row_pair_roles(S: Snips, fi: FunctionInfo, oth: str):
@@ -101,19 +141,19 @@ def run(ctx: Ctx):
     jl, jp = [], []
     jl_ok = jp_ok = mloop is not None and mret is not None
     if jl_ok:
-        for call, e in SM.find("jlogits.append(jlogit)", mret[0], within=mloop):
-            for n, e2 in SM.find("jlogit = E_val", e):
+        for call, e in SM.find("jlogits.append(E_x)", mret[0], within=mloop):
+            for n, v in _values(SM, e["x"]):
                 jl.append(n)
-                e3 = SM.m("np.log(jprob)", n.value, e2)
+                e3 = SM.m("np.log(E_p)", v)
                 if e3 is None:
                     jl_ok = False
                     continue
-                for n2, _ in SM.find("jprob = E_sum", e3):
-                    if not any(n2 is x for x in jp):
-                        jp.append(n2)
+                for n2, v2 in _values(SM, e3["p"]):
+                    if not any(n2 is x for x, _ in jp):
+                        jp.append((n2, v2))
     want = _sum_of(f"np.exp(self.logit({menv.get('si')}))", f"np.exp({moth}.logit({menv.get('oi')}))")
-    ok = jp_ok and bool(jp) and all(alg.normalise(n.value) == want for n in jp)
-    ctx.check(ok, "ALG-5", mx, jp[0] if jp else mx.node, "mixture: probability of a row = sum of the two rows' probabilities", "", "mixture does not add probabilities")
+    ok = jp_ok and bool(jp) and all(alg.normalise(v) == want for _, v in jp)
+    ctx.check(ok, "ALG-5", mx, jp[0][0] if jp else mx.node, "mixture: probability of a row = sum of the two rows' probabilities", "", "mixture does not add probabilities")
     ctx.check(jl_ok and bool(jl), "ALG-5", mx, jl[0] if jl else mx.node, "mixture: stored as log of the summed probability", "", "mixture logit is not log(sum of probabilities)")
     ml = D.methods["__mul__"]
     num = ml.positional_params[1]
@@ -122,8 +162,8 @@ def run(ctx: Ctx):
     cenv = SL.m("[E_elt for lg in self.logits]", comp[0]) if comp else None
     ok = cenv is not None and alg.normalise(cenv["elt"]) == _sum_of(cenv["lg"], f"np.log({num})")
     ctx.check(ok, "ALG-5", ml, comp[0] if comp else ml.node, "scaling: logit + log(num) for every row", "", "scaling does not add log(num) to every logit")
-    # the list of scaled logits (the name the comprehension is assigned to) goes with the unchanged support into the result
-    scaled = [e for n, e in SL.find("mlogits = E_c") if comp and e["c"] is comp[0]]
+    # the list of scaled logits (the comprehension above, named by a local or written in place) goes with the unchanged support into the result
+    scaled = [e for n, e in SL.find("mlogits = [E_elt for lg in self.logits]") if comp and e["elt"] is comp[0].elt]
     ok = any(SL.has("DiscreteFactorTable(support=self.support, logits=mlogits)", {"mlogits": e["mlogits"]}) for e in scaled)
     ctx.check(ok, "ALG-5", ml, ml.node, "scaling keeps the support", "", "scaling changes the support")
     a_, o_ = D.methods["__and__"], D.methods["__or__"]
@@ -138,22 +178,36 @@ def run(ctx: Ctx):
     nsd = G.methods["next_state_dist"]
     s_p, ja_p = nsd.positional_params[1:3]
     body = nsd.node.body
-    firsts = [st for st in body[:3] if isinstance(st, ast.If)]
-    tests = [ast.unparse(st.test) for st in firsts]
-    ok = f"self.is_terminal({s_p})" in tests and f"self.is_absorbing({s_p})" in tests and all(
-        isinstance(st.body[0], ast.Return) and "TERMINALSTATE" in ast.unparse(st.body[0].value) for st in firsts)
+    ST = Snips(nsd)
+    t_pats = (f"self.is_terminal({s_p})", f"self.is_absorbing({s_p})")
+
+    def _named_test(st) -> bool:
+        """st only gives a name to one of the two tests (`t = self.is_terminal(s)`); it is no move logic."""
+        return isinstance(st, ast.Assign) and len(st.targets) == 1 and isinstance(st.targets[0], ast.Name) and st.targets[0].id in ST.defs \
+            and any(ST.m(tp, st.value) is not None for tp in t_pats)
+
+    def _first_stmt(stmts):
+        return next((x for x in stmts if not (isinstance(x, ast.Assign) and len(x.targets) == 1 and isinstance(x.targets[0], ast.Name)
+                                              and x.targets[0].id in ST.defs)), None)
+    firsts = [st for st in [x for x in body if not _named_test(x)][:3] if isinstance(st, ast.If)]
+    tests = [name_free(nsd, st.test) for st in firsts]
+    ok = all(any(ST.m(tp, st.test) is not None for st in firsts) for tp in t_pats) and all(
+        isinstance(_first_stmt(st.body), ast.Return) and _first_stmt(st.body).value is not None
+        and _mentions(ST, _first_stmt(st.body).value, "TERMINALSTATE") for st in firsts)
     ctx.check(ok, "TERM-1", nsd, firsts[0] if firsts else nsd.node, "terminal and goal-occupying states return the terminal table before any move logic", str(tests),
               "the terminal / goal tests do not come first or do not return the terminal table")
     jr = G.methods["joint_rewards"]
     jb = jr.node.body
     SJ = Snips(jr)
-    jenv = SJ.m("jr = {an: 0 for an in self.agent_names}", jb[0]) if jb else None          # the zero map, by what it is
-    ok = jenv is not None and len(jb) >= 2 and isinstance(jb[1], ast.If) \
-        and SJ.m(f"self.is_terminal({jr.positional_params[1]}) or self.is_terminal({jr.positional_params[3]})", jb[1].test) is not None \
-        and SJ.m("return jr", jb[1].body[0], jenv) is not None
-    ctx.check(ok, "TERM-1", jr, jb[1] if len(jb) > 1 else jr.node, "rewards are the zero map when either end is terminal", "", "terminal transitions are not paid zero")
+    # the zero map, by what it is (named or written in place), is returned under the test; only single assignments of locals come before
+    jsol_ = SJ.solve(["jr = {an: 0 for an in self.agent_names}",
+                      f"if self.is_terminal({jr.positional_params[1]}) or self.is_terminal({jr.positional_params[3]}):\n    return jr\n    REST"])
+    jif = jsol_[1][1] if jsol_ else None
+    ok = jif is not None and any(st is jif for st in jb) and all(
+        isinstance(st, ast.Assign) and all(isinstance(t, ast.Name) and t.id in SJ.defs for t in st.targets) for st in jb[:next(i for i, st in enumerate(jb) if st is jif)])
+    ctx.check(ok, "TERM-1", jr, jif if jif is not None else (jb[1] if len(jb) > 1 else jr.node), "rewards are the zero map when either end is terminal", "", "terminal transitions are not paid zero")
     it = G.methods["is_terminal"]
-    ctx.check("get('isTerminal', False)" in ast.unparse(it.node), "TERM-1", it, it.node, "is_terminal reads the isTerminal flag", "", "terminal predicate changed")
+    ctx.check(Snips(it).has(f"{it.positional_params[1]}.get('isTerminal', False)"), "TERM-1", it, it.node, "is_terminal reads the isTerminal flag", "", "terminal predicate changed")
     # --- roles of the per-agent part: the loop over agents (an), the moved copy of the agent's cell (agent), the agent's action
     SG = Snips(nsd)
     aloop, R, act = None, {}, None
@@ -161,7 +215,9 @@ def run(ctx: Ctx):
         r = SG.solve([f"agent = copy.deepcopy({s_p}[an])"], e, within=n)
         if r is not None and all(_direct(n, x) for x in r[1]):
             aloop, R = n, r[0]
-            act = next((e2 for n2, e2 in SG.find(f"agentaction = {ja_p}[an]", R, within=n) if _direct(n, n2)), None)
+            # the agent's own action: named by an unconditional statement of the loop, or read in place (`ja[an]` not named)
+            act = next((e2 for n2, e2 in SG.find(f"agentaction = {ja_p}[an]", R, within=n)
+                        if _direct(n, n2) or isinstance(e2.get("agentaction"), Virtual)), None)
             break
     # clamp
     for axis, ext in (("x", "self.width"), ("y", "self.height")):
@@ -171,12 +227,7 @@ def run(ctx: Ctx):
         if st:
             v = st[0].value
             detail = name_free(nsd, v, depth=0)
-            if isinstance(v, ast.Call) and SG.m("max", v.func) is not None and len(v.args) == 2 and not v.keywords:
-                inner = [a for a in v.args if isinstance(a, ast.Call) and SG.m("min", a.func) is not None and not a.keywords]
-                zero = [a for a in v.args if isinstance(a, ast.Constant) and a.value == 0]
-                if inner and zero and len(inner[0].args) == 2:
-                    ia = inner[0].args
-                    ok = any(SG.m(f"{ext} - 1", a) is not None for a in ia) and act is not None and any(SG.m(f"agent['{axis}'] + agentaction['{axis}']", a, act) is not None for a in ia)
+            ok = act is not None and _clamped(SG, v, f"agent['{axis}'] + agentaction['{axis}']", f"{ext} - 1", act)
         ctx.check(ok, "CLAMP-1", nsd, st[0] if st else nsd.node, f"{axis}' = max(min({axis} + d{axis}, {ext} - 1), 0)", detail,
                   f"the moved {axis} coordinate `{detail}` is not clamped to [0, {ext} - 1] around {axis} + action[{axis}]: an agent could leave the grid or move more than one cell")
     ja = G.methods["joint_actions"]
@@ -229,18 +280,27 @@ def run(ctx: Ctx):
     ok = len(ands) >= 2 and {"obstacle", "wall"} <= {over(a) for a in ands}
     ctx.check(ok, "MOVE-1", nsd, ands[0] if ands else nsd.node, "obstacle and wall constraints are multiplied into the move table", "", "a constraint is not applied to the move table")
     fn = [n for n in (ast.walk(aloop) if aloop is not None and "mv" in R else []) if isinstance(n, ast.Assign) and len(n.targets) == 1 and SG.m("mv", n.targets[0], R) is not None
-          and isinstance(n.value, ast.BinOp) and isinstance(n.value.op, ast.BitOr)]
+          and isinstance(_resolved(SG, n.value), ast.BinOp) and isinstance(_resolved(SG, n.value).op, ast.BitOr)]
     if fn:
         v = fn[0].value
-        e = _ordered(SG, ast.BitOr, "mv * self.fence_success_prob", "fe * E_w", v, R)
+        keep = f"Pr([{{an: {s_p}[an]}}])"             # the table that keeps the agent where it is
+        p_succ = alg.normalise(ast.parse("self.fence_success_prob", mode="eval").body)
+        # the other component, written in place or named by a single-assignment local (the match is definition-transparent)
+        e = _ordered(SG, ast.BitOr, "mv * self.fence_success_prob", f"{keep} * E_w", v, R)
         w = alg.normalise(e["w"]) if e is not None else None
-        if e is None:
-            e = _ordered(SG, ast.BitOr, "mv * self.fence_success_prob", "fe", v, R)
-            w = dict(ONE)
-        ok = e is not None and alg.add(alg.normalise(ast.parse("self.fence_success_prob", mode="eval").body), w) == ONE
-        if ok:                                       # the other component is the table that keeps the agent where it is
-            stay = [n for n, _ in SG.find("fe = E_v", {"fe": e["fe"]}, within=aloop)]
-            ok = bool(stay) and all(SG.m(f"Pr([{{an: {s_p}[an]}}])", n.value, R) is not None for n in stay)
+        if e is None and _ordered(SG, ast.BitOr, "mv * self.fence_success_prob", keep, v, R) is not None:
+            e, w = R, dict(ONE)
+        ok = e is not None and alg.add(p_succ, w) == ONE
+        if e is None:                                # ... or named by a local that is assigned more than once: every assignment is that table
+            e = _ordered(SG, ast.BitOr, "mv * self.fence_success_prob", "fe * E_w", v, R)
+            w = alg.normalise(e["w"]) if e is not None else None
+            if e is None:
+                e = _ordered(SG, ast.BitOr, "mv * self.fence_success_prob", "fe", v, R)
+                w = dict(ONE)
+            ok = e is not None and alg.add(p_succ, w) == ONE
+            if ok:
+                stay = [n for n, _ in SG.find("fe = E_v", {"fe": e["fe"]}, within=aloop)]
+                ok = bool(stay) and all(SG.m(keep, n.value, R) is not None for n in stay)
         ctx.check(ok, "MOVE-1", nsd, fn[0], "fence: move with the success probability, stay with the complement", name_free(nsd, v, depth=0), f"fence mixture is `{name_free(nsd, v, depth=0, width=80)}`")
     # --- roles of the joint part: product of the move tables (ad), interaction table (ie) built from rows (inter) and logits (ilog),
     #     the loop over joint successors (ns) with its running logit, the loop over pairs of agents (an0, an1)
@@ -261,7 +321,7 @@ def run(ctx: Ctx):
             break
     # pairwise interactions
     pen = [n for n in (ast.walk(ploop) if ploop is not None else []) if isinstance(n, ast.AugAssign) and isinstance(n.op, ast.Add)
-           and SG.m("logit", n.target, PE) is not None and "-np.inf" in ast.unparse(n.value)]
+           and SG.m("logit", n.target, PE) is not None and "-np.inf" in ast.unparse(_resolved(SG, n.value))]
     per_pair = {x.id for st in (ploop.body if ploop is not None else []) for x in ast.walk(st) if isinstance(x, ast.Name) and isinstance(x.ctx, ast.Store)}
     coll, swap = [], []
     for n in pen:
